@@ -261,8 +261,9 @@ class Engine(NumericMixin, EvalMixin, ExecMixin, CallMixin, BuiltinMixin):
 
     def generate(self, fi, spec, res):
         st = self.build_initial_state(fi, spec)
-        for _, lf in self.lemma_formulas(spec.lemmas):
-            st.pc.append(lf)
+        if FINITE['K'] is None:
+            for _, lf in self.lemma_formulas(spec.lemmas):
+                st.pc.append(lf)
         ss = st.fork()
         ss.spec = True
         self.eval_lets(spec, ss)
@@ -506,6 +507,24 @@ class Engine(NumericMixin, EvalMixin, ExecMixin, CallMixin, BuiltinMixin):
             if not self.model_is_genuine(m, ob):
                 return 'unknown', None
             return 'sat', self.concretize(m, ob)
+        # 3rd attempt (monotone weakening): keep only the quantifier-free pure-arithmetic hypotheses and decide
+        # with nlsat; an unsat answer from a subset of the hypotheses is still a proof
+        g2 = z3.simplify(ob.goal)
+        if is_pure_arith(g2):
+            s = z3.Tactic('qfnra-nlsat').solver() if not has_int_vars(g2) else z3.SolverFor('QF_NIA')
+            s.set('timeout', timeout_ms)
+            keep = []
+            for p_ in ob.pc:
+                p2 = z3.simplify(p_)
+                if is_pure_arith(p2):
+                    keep.append(p2)
+            s.add(keep)
+            s.add(z3.Not(g2))
+            try:
+                if s.check() == z3.unsat:
+                    return 'unsat', None
+            except z3.Z3Exception:
+                pass
         return 'unknown', None
 
     def model_is_genuine(self, m, ob):
@@ -543,6 +562,7 @@ class Engine(NumericMixin, EvalMixin, ExecMixin, CallMixin, BuiltinMixin):
             try:
                 sub = Engine(self.index, self.timeout_ms, self.feas_budget_ms)
                 sub.case_binding = dict(self.case_binding)
+                sub.expand_defs = True        # definitions expanded, lemmas dropped: quantifier-free search
                 sub.reset()
                 sub.current_fn = fi.qual
                 sub.verifying = fi.qual
@@ -696,3 +716,42 @@ def pack_cell(c):
     if isinstance(c, DictC):
         return S.mk(c.dom, c.val, c.keys, c.pos, c.n)
     return S.mk(c.dom, c.keys, c.pos, c.n)
+
+
+def is_pure_arith(e, _seen=None):
+    """quantifier-free, only Bool/Int/Real constants and arithmetic / boolean connectives"""
+    if _seen is None:
+        _seen = set()
+    stack = [e]
+    while stack:
+        x = stack.pop()
+        if x.get_id() in _seen:
+            continue
+        _seen.add(x.get_id())
+        if z3.is_quantifier(x) or z3.is_var(x):
+            return False
+        if not z3.is_app(x):
+            return False
+        srt = x.sort().kind()
+        if srt not in (z3.Z3_BOOL_SORT, z3.Z3_INT_SORT, z3.Z3_REAL_SORT):
+            return False
+        k = x.decl().kind()
+        if k == z3.Z3_OP_UNINTERPRETED and x.num_args() > 0:
+            return False
+        if k in (z3.Z3_OP_SELECT, z3.Z3_OP_STORE):
+            return False
+        stack.extend(x.children())
+    return True
+
+
+def has_int_vars(e):
+    stack, seen = [e], set()
+    while stack:
+        x = stack.pop()
+        if x.get_id() in seen:
+            continue
+        seen.add(x.get_id())
+        if z3.is_const(x) and x.decl().kind() == z3.Z3_OP_UNINTERPRETED and x.sort().kind() == z3.Z3_INT_SORT:
+            return True
+        stack.extend(x.children())
+    return False
